@@ -180,6 +180,7 @@ class Model:
         m = Model(self.csv_numbers)
         m.points = [p.copy() for p in self.points]
         m.next_uid = self.next_uid
+        m.lineage = getattr(self, "lineage", None)
         return m
 
     def same_state(self, other):
